@@ -650,8 +650,6 @@ Proof. apply mem_bound_reduce. Qed.
 
 (* ---------------------------------------------------------------- max *)
 
-Definition is_max (M : Z) (l : list Z) : Prop := In M l /\ forall v, In v l -> v <= M.
-
 Lemma lookup_Some_In_pair (es : list ent) ix v : lookup es ix = Some v -> In (ix, v) es.
 Proof.
   induction es as [|[k w] r IH]; simpl; [discriminate|].
@@ -810,10 +808,10 @@ Proof.
         exfalso. apply lookup_Some_In_pair in El.
         assert (Hc : In [i; j] cand).
         { unfold cand. apply in_flat_map. exists kv. split; [exact Hin|]. apply in_map_iff.
-          exists ([nth 1 (fst kv) 0; j], w). cbn [fst]. split; [match goal with |- ?G => idtac G end; rewrite Hi; reflexivity|].
+          exists ([nth 1 (fst kv) 0; j], w). cbn [fst]. split; [apply (f_equal2 (fun a b : Z => [a; b])); [exact Hi|reflexivity]|].
           apply filter_In. split; [exact El|]. cbn [fst]. apply Z.eqb_eq. reflexivity. }
         apply dedup_In, memb_In in Hc. congruence. }
-      rewrite Hd. lia. }
+      transitivity (snd kv * 0 + 0); [|lia]. f_equal. f_equal. exact Hd. }
     apply Hz. intros kv Hin. apply filter_In in Hin. destruct Hin as [Hin E2]. apply Z.eqb_eq in E2. auto. }
   assert (Hval : match (if memb [i; j] (dedup cand) then Some (mm_value ex y [i; j]) else None) with
                  | Some v => v | None => 0 end = mm_value ex y [i; j]).
@@ -843,8 +841,8 @@ Qed.
 Lemma flat_map_length_le {A B} (f : A -> list B) (l : list A) (c : Z) :
   (forall a, zlen (f a) <= c) -> 0 <= c -> zlen (flat_map f l) <= zlen l * c.
 Proof.
-  intros H Hc. unfold zlen in *. induction l as [|a l IH]; simpl; [lia|].
-  rewrite app_length. specialize (H a). lia.
+  intros H Hc. unfold zlen in *. induction l as [|a l IH]; [simpl; lia|]. cbn [flat_map length].
+  rewrite app_length, Nat2Z.inj_add, Nat2Z.inj_succ. specialize (H a). nia.
 Qed.
 
 Theorem mem_bound_matmul_proof (x y : coo Z) : cost_of (sp_matmul_tr x y) <= nnz x * nnz y + nnz x + nnz y.
@@ -858,5 +856,230 @@ Proof.
   pose proof (dedup_length cand). pose proof (zlen_nonneg (dedup cand)). pose proof (zlen_nonneg cand).
   assert (zlen (entries x) * zlen (entries y) <= nnz x * nnz y) by nia.
   assert (0 <= nnz x * nnz y) by nia.
-  apply max_le_all; [lia|]. repeat constructor; rewrite ?zlen_map; lia.
+  apply max_le_all; [lia|]. assert (Hd : zlen (dedup cand) <= nnz x * nnz y + nnz x + nnz y).
+  { eapply Z.le_trans; [apply dedup_length|]. eapply Z.le_trans; [exact Hc|]. lia. }
+  repeat (apply Forall_cons; [cbv beta; rewrite ?zlen_map; first [exact Hd | eapply Z.le_trans; [exact Hc|lia] | lia]|]). constructor.
 Qed.
+
+(* ================================================================= COO <-> GCXS-like rows *)
+
+Lemma zlen_zrange n : 0 <= n -> zlen (zrange n) = n.
+Proof. intros H. unfold zlen, zrange. rewrite map_length, seq_length. lia. Qed.
+
+Lemma combine_map_self {A B} (F : A -> B) (l : list A) : combine l (map F l) = map (fun a => (a, F a)) l.
+Proof. induction l; simpl; congruence. Qed.
+
+Lemma flat_map_map {A B C} (g : A -> B) (f : B -> list C) (l : list A) :
+  flat_map f (map g l) = flat_map (fun a => f (g a)) l.
+Proof. induction l; simpl; congruence. Qed.
+
+Lemma flat_map_ext_in {A B} (f g : A -> list B) (l : list A) :
+  (forall a, In a l -> f a = g a) -> flat_map f l = flat_map g l.
+Proof. induction l as [|a l IH]; simpl; intros H; [reflexivity|]. rewrite H, IH; auto. Qed.
+
+Lemma lookup_flat_filter (rowf : idx -> Z) (es : list ent) (rs : list Z) ix :
+  lookup (flat_map (fun r => filter (fun kv => rowf (fst kv) =? r) es) rs) ix
+  = if existsb (Z.eqb (rowf ix)) rs then lookup es ix else None.
+Proof.
+  induction rs as [|r0 rs IH]; simpl; [reflexivity|].
+  rewrite lookup_app, IH. rewrite (lookup_filter (fun k => rowf k =? r0)).
+  destruct (existsb (Z.eqb (rowf ix)) rs).
+  - rewrite orb_true_r. destruct (lookup es ix); [reflexivity|]. destruct (rowf ix =? r0); reflexivity.
+  - rewrite orb_false_r. reflexivity.
+Qed.
+
+Theorem rows_roundtrip_den_proof (mask : list bool) (x : coo Z) (ix : idx) :
+  length (c_shape x) = length mask -> shape_ok (c_shape x) ->
+  Forall (in_range (c_shape x)) (c_coords x) -> in_range (c_shape x) ix ->
+  den (coo_of_rows mask (c_shape x) (c_fill x) (rows_of_coo mask x)) ix = den x ix.
+Proof.
+  intros Hl Hok Hr Hix. set (sh := c_shape x) in *.
+  destruct (shape_ok_kept_red mask sh Hok) as [Hoku Hokc].
+  pose proof (size_nonneg _ Hokc) as HR.
+  unfold coo_of_rows, coo_of_rows_tr, rows_of_coo, rows_of_coo_tr. cbn [fst]. fold sh.
+  unfold den. cbn [c_fill of_entries]. rewrite entries_of_entries.
+  set (ex := entries x). set (R := size (red mask sh)) in *.
+  rewrite zlen_map, (zlen_zrange R HR). rewrite combine_map_self, flat_map_map. cbn [fst snd].
+  rewrite (flat_map_ext_in _ (fun r => filter (fun kv => row_of mask sh (fst kv) =? r) ex)).
+  - rewrite (lookup_flat_filter (row_of mask sh)).
+    assert (Hin : existsb (Z.eqb (row_of mask sh ix)) (zrange R) = true).
+    { apply existsb_exists. exists (row_of mask sh ix). split; [|apply Z.eqb_refl].
+      apply zrange_In. unfold row_of, R. apply ravel_bounds. apply (in_range_kept_red mask sh ix Hl Hix). }
+    rewrite Hin. reflexivity.
+  - intros r _. rewrite map_map. cbn [fst snd].
+    rewrite <- (map_id (filter _ ex)) at 2. apply map_ext_in. intros [k v] Hin. cbn [fst snd].
+    apply filter_In in Hin. destruct Hin as [Hin Hrow]. cbn [fst] in Hrow. apply Z.eqb_eq in Hrow.
+    rewrite Forall_forall in Hr.
+    assert (Hk : in_range sh k).
+    { apply Hr. apply entries_keys_incl. apply in_map_iff. exists (k, v). auto. }
+    destruct (in_range_kept_red mask sh k Hl Hk) as [Hku Hkc].
+    f_equal. rewrite <- Hrow. unfold row_of, col_of.
+    rewrite !unravel_ravel by assumption. apply merge_kept_red. apply in_range_length in Hk. lia.
+Qed.
+
+Theorem mem_bound_rows_of_coo_proof (mask : list bool) (x : coo Z) :
+  shape_ok (c_shape x) ->
+  cost_of (rows_of_coo_tr mask x) <= nnz x + size (red mask (c_shape x)).
+Proof.
+  intros Hok. destruct (shape_ok_kept_red mask _ Hok) as [_ Hokc]. pose proof (size_nonneg _ Hokc) as HR.
+  unfold cost_of, rows_of_coo_tr. cbn [snd].
+  pose proof (zlen_entries x) as Hx. pose proof (zlen_nonneg (entries x)).
+  apply max_le_all; [lia|]. apply Forall_app. split.
+  - repeat (apply Forall_cons; [cbv beta; rewrite ?zlen_map, ?zlen_zrange by assumption; lia|]). constructor.
+  - apply Forall_forall. intros v Hv. apply in_map_iff in Hv. destruct Hv as [row [<- Hrow]].
+    apply in_map_iff in Hrow. destruct Hrow as [r [<- _]]. rewrite zlen_map.
+    eapply Z.le_trans; [apply zlen_filter|]. lia.
+Qed.
+
+Lemma zlen_flat_combine {A} (f : Z * list A -> list ent) (rs : list Z) (rows : list (list A)) :
+  (forall rr, zlen (f rr) = zlen (snd rr)) ->
+  zlen (flat_map f (combine rs rows)) <= zlen (concat rows).
+Proof.
+  intros Hf. revert rs. induction rows as [|row rows IH]; intros rs.
+  - destruct rs; simpl; unfold zlen; simpl; lia.
+  - destruct rs as [|r rs].
+    + cbn [combine flat_map]. apply zlen_nonneg.
+    + cbn [combine flat_map concat]. rewrite !zlen_app, Hf. cbn [snd]. specialize (IH rs). lia.
+Qed.
+
+Theorem mem_bound_coo_of_rows_proof (mask : list bool) (sh : shape) (fill : Z) (rows : crows) :
+  cost_of (coo_of_rows_tr mask sh fill rows) <= zlen rows + zlen (concat rows).
+Proof.
+  unfold cost_of, coo_of_rows_tr. cbn [snd].
+  pose proof (zlen_nonneg rows). pose proof (zlen_nonneg (concat rows)).
+  assert (Hrs : zlen (zrange (zlen rows)) = zlen rows) by (apply zlen_zrange; assumption).
+  assert (Htag : zlen (combine (zrange (zlen rows)) rows) <= zlen rows).
+  { unfold zlen at 1. rewrite combine_length. unfold zlen in *. lia. }
+  pose proof (zlen_nonneg (combine (zrange (zlen rows)) rows)).
+  set (f := fun rr : Z * list (Z * Z) => map _ (snd rr)).
+  assert (Hes : zlen (flat_map f (combine (zrange (zlen rows)) rows)) <= zlen (concat rows)).
+  { apply zlen_flat_combine. intros rr. unfold f. apply zlen_map. }
+  apply max_le_all; [lia|].
+  repeat (apply Forall_cons; [cbv beta; first [exact Hes | lia | eapply Z.le_trans; [exact Hes|lia]]|]). constructor.
+Qed.
+
+(* ================================================================= comparison on the union of supports *)
+
+Theorem same_denb_sound_proof (a b : coo Z) :
+  same_denb a b = true -> forall ix, den a ix = den b ix.
+Proof.
+  unfold same_denb. rewrite !andb_true_iff, !forallb_forall. intros [[Hf Ha] Hb] ix.
+  apply Z.eqb_eq in Hf.
+  destruct (lookup (entries a) ix) as [v|] eqn:Ea.
+  - apply Z.eqb_eq. apply Ha. apply entries_keys_incl. eapply lookup_Some_In. exact Ea.
+  - destruct (lookup (entries b) ix) as [w|] eqn:Eb.
+    + apply Z.eqb_eq. apply Hb. apply entries_keys_incl. eapply lookup_Some_In. exact Eb.
+    + unfold den. rewrite Ea, Eb. exact Hf.
+Qed.
+
+(* ================================================================= dense-allocation sites *)
+
+(* Full statement "every dense-allocation site of the anchored files is sanctioned",
+     forallb sanctioned dense_sites = true,
+   is FALSE of the source as it stands: two sites allocate a product of extents inside a listed
+   operation family (GCXS reductions: findings G1; GCXS indexing: G2). *)
+Lemma dense_sites_sanctioned_refuted_proof :
+  exists s, In s dense_sites /\ sanctioned s = false /\ product_site s = true.
+Proof.
+  exists (mkSite "_compressed/compressed.py" "GCXS._reduce_calc" "np.arange"
+                 "x._compressed_shape[0], dtype=self.indptr.dtype" 1).
+  vm_compute. repeat split; auto 200.
+Qed.
+
+Lemma dense_sites_reviewed_proof :
+  forallb (fun s => xorb (sanctioned s) (product_site s)) dense_sites = true.
+Proof. vm_compute. reflexivity. Qed.
+
+Lemma product_sites_present_proof :
+  forallb (fun a => existsb (fun s => site_matches s a) dense_sites) product_sites = true
+  /\ length (filter product_site dense_sites) = 2%nat.
+Proof. vm_compute. split; reflexivity. Qed.
+
+(* ================================================================= well-formed operands *)
+
+Lemma nodupb_spec l : nodupb l = true -> NoDup l.
+Proof.
+  induction l as [|a r IH]; simpl; intros H; constructor.
+  - apply andb_true_iff in H. destruct H as [H _]. apply negb_true_iff in H.
+    intros Hin. apply memb_In in Hin. congruence.
+  - apply IH. apply andb_true_iff in H. tauto.
+Qed.
+
+Theorem wfb_spec_proof (x : coo Z) : wfb x = true ->
+  shape_ok (c_shape x) /\ Forall (in_range (c_shape x)) (c_coords x) /\ NoDup (map fst (entries x)).
+Proof.
+  unfold wfb. rewrite !andb_true_iff. intros [[[Hs Hr] Hn] Hl]. apply Nat.eqb_eq in Hl. repeat split.
+  - unfold shape_ok. apply Forall_forall. intros d Hd. rewrite forallb_forall in Hs. apply Z.leb_le. auto.
+  - apply Forall_forall. intros k Hk. rewrite forallb_forall in Hr. apply in_rangeb_spec. auto.
+  - unfold entries. rewrite combine_map_fst by lia. apply nodupb_spec. exact Hn.
+Qed.
+
+(* ================================================================= non-vacuity: the hypotheses of every
+   theorem hold on non-trivial values, including an array with 10^18 logical elements *)
+
+Definition ex_x : coo Z := mkCOO [2; 3; 4] [[0;0;1]; [0;2;3]; [1;1;0]; [1;2;2]] [5; -2; 7; 3] 0.
+Definition ex_y : coo Z := mkCOO [2; 3; 4] [[0;0;1]; [1;0;0]] [4; 9] 0.
+Definition ex_h : coo Z :=
+  mkCOO [1000000; 1000000; 1000000]
+        [[5; 999999; 17]; [5; 0; 999999]; [123456; 7; 17]; [999999; 999999; 999999]] [3; -4; 10; 6] 0.
+Definition ex_a : coo Z := mkCOO [2; 3] [[0;0]; [0;2]; [1;1]] [2; 3; 5] 0.
+Definition ex_b : coo Z := mkCOO [3; 2] [[0;1]; [1;0]; [2;1]] [7; 11; 13] 0.
+
+Example ex_wf : wfb ex_x = true /\ wfb ex_y = true /\ wfb ex_h = true /\ wfb ex_a = true /\ wfb ex_b = true.
+Proof. vm_compute. repeat split; reflexivity. Qed.
+
+Example ex_zip : den (sp_zip Z.add ex_x ex_y) [0;0;1] = 9 /\ den (sp_zip Z.add ex_x ex_y) [1;0;0] = 9
+                 /\ cost_of (sp_zip_tr Z.add ex_x ex_y) = 5.
+Proof. vm_compute. repeat split; reflexivity. Qed.
+
+Example ex_zipl : (forall w, Z.mul (c_fill ex_h) w = Z.mul (c_fill ex_h) (c_fill ex_h))
+                  /\ den (sp_zipl Z.mul (bcast_idx [1; 1000000; 1]) ex_h
+                                  (mkCOO [1; 1000000; 1] [[0; 7; 0]; [0; 999999; 0]] [2; 5] 0)) [5; 999999; 17] = 15.
+Proof. split; [intros w; reflexivity|vm_compute; reflexivity]. Qed.
+
+Example ex_transpose : is_permb [2; 0; 1]%nat (length (c_shape ex_h)) = true
+                       /\ in_range (c_shape ex_h) [123456; 7; 17]
+                       /\ den (sp_transpose [2; 0; 1]%nat ex_h) [17; 123456; 7] = 10.
+Proof. vm_compute. repeat split; try reflexivity; try discriminate. Qed.
+
+Example ex_reshape : size [1000000000; 1000000000] = size (c_shape ex_h)
+                     /\ in_range [1000000000; 1000000000] [123456000; 7000017]
+                     /\ den (sp_reshape [1000000000; 1000000000] ex_h) [123456000; 7000017] = 10.
+Proof. vm_compute. repeat split; try reflexivity; try discriminate. Qed.
+
+Example ex_getitem : sel_okb [AInt 5; ASlice 999999 (-3) 333334; ASlice 1 2 499999] = true
+                     /\ in_range (sel_shape [AInt 5; ASlice 999999 (-3) 333334; ASlice 1 2 499999]) [0; 8]
+                     /\ den (sp_getitem [AInt 5; ASlice 999999 (-3) 333334; ASlice 1 2 499999] ex_h) [0; 8] = 3
+                     /\ sel_src [AInt 5; ASlice 999999 (-3) 333334; ASlice 1 2 499999] [0; 8] = [5; 999999; 17].
+Proof. vm_compute. repeat split; try reflexivity; try discriminate. Qed.
+
+Example ex_concat : den (sp_concat 1 ex_h ex_h) [5; 1999999; 17] = 3 /\ den (sp_concat 1 ex_h ex_h) [5; 999999; 17] = 3
+                    /\ c_shape (sp_concat 1 ex_h ex_h) = [1000000; 2000000; 1000000].
+Proof. vm_compute. repeat split; reflexivity. Qed.
+
+Example ex_sum : length (c_shape ex_h) = length [false; true; true]
+                 /\ in_range (kept [false; true; true] (c_shape ex_h)) [5]
+                 /\ den (sp_sum [false; true; true] ex_h) [5] = -1
+                 /\ c_shape (sp_sum [false; true; true] ex_h) = [1000000].
+Proof. vm_compute. repeat split; try reflexivity; try discriminate. Qed.
+
+Example ex_sum_small :
+  den (sp_sum [true; false; true] ex_x) [2]
+  = zsum (map (fun r => den ex_x (merge [true; false; true] [2] r)) (all_indices (red [true; false; true] (c_shape ex_x)))).
+Proof. vm_compute. reflexivity. Qed.
+
+Example ex_max : 0 < size (red [true; false; true] (c_shape ex_h))
+                 /\ den (sp_max [true; false; true] ex_h) [999999] = 6 /\ den (sp_max [true; false; true] ex_h) [7] = 10
+                 /\ den (sp_max [true; false; true] ex_h) [8] = 0.
+Proof. vm_compute. repeat split; reflexivity. Qed.
+
+Example ex_matmul : den (sp_matmul ex_a ex_b) [0; 1] = 53 /\ den (sp_matmul ex_a ex_b) [1; 0] = 55
+                    /\ den (sp_matmul ex_a ex_b) [0; 0] = 0
+                    /\ zsum (map (fun k => den ex_a [0; k] * den ex_b [k; 1]) (zrange 3)) = 53.
+Proof. vm_compute. repeat split; reflexivity. Qed.
+
+Example ex_rows :
+  rows_of_coo [true; false] ex_a = [[(0, 2); (2, 3)]; [(1, 5)]]
+  /\ indptr_of (rows_of_coo [true; false] ex_a) = [0; 2; 3]
+  /\ same_denb (coo_of_rows [true; false] [2; 3] 0 (rows_of_coo [true; false] ex_a)) ex_a = true.
+Proof. vm_compute. repeat split; reflexivity. Qed.
